@@ -97,9 +97,9 @@ def second_on_replica(run, r, res):
             bad.append("after replicate %s: inserted atom %d has fractional coordinates %s in the new cell" % (f, i, np.round(fr[i], 4).tolist()))
             break
     for i in hs:
-        d = min(FG.min_image_dist(cell, inv, pos[i], x) for x in rn) if len(rn) else 9.9
+        d = FG.min_image_dist(cell, inv, pos[i], pos[i - 1])        # its own partner: the Rn appended just before it
         if abs(d - 1.0) > 1e-5:
-            bad.append("after replicate %s: inserted H %d is %.4f A (minimum image in the new cell) from the nearest inserted Rn, the replacement pattern says 1.0" % (f, i, d))
+            bad.append("after replicate %s: inserted H %d is %.4f A (minimum image in the new cell) from the Rn inserted with it, the replacement pattern says 1.0" % (f, i, d))
             break
     return bad
 
